@@ -272,3 +272,11 @@ def o_no_read_skipped(O):
 def o_outputs_map(O):
     from . import C14
     C14.outputs_map(dri.WithRep(O, rep()))
+
+
+@obligation("C04/no-state-outside-the-iterator", desc="TestCase has no interior mutability and the crate keeps no mutable global "
+            "state: the missing-output check of the constructor and the layout of THIS driver's first answer are established "
+            "anew for every iterator (type-level facts read from the MIR and the struct definition)")
+def no_state_outside(O):
+    from . import C15
+    C15.no_shared_state_core(O, rep())
